@@ -140,7 +140,9 @@ def run_pipe(case):
                 if k > 0:
                     cur = tfs[k - 1].transform(cur)
                 # the same suffix, written with a start counted from the front or from the back
-                sl = pipe[k:] if (k + len(tfs)) % 2 else pipe[k - len(pipe):]
+                # (... or as a numpy integer, as when the split point comes out of an array computation)
+                kk = np.int64(k) if (k + len(case["matrix"])) % 3 == 0 else k
+                sl = pipe[kk:] if (k + len(tfs)) % 2 else pipe[k - len(pipe):]
                 splits.append(dump_result(sl.evaluate(cur)))
             out["splits"] = splits
         names = [n for n, _ in pipe.steps]
